@@ -12,7 +12,9 @@ vars == <<par, fetches>>
 \* cacheable-but-always-revalidate forms: "nocache" (no-cache + ETag), "mustreval0" (max-age=0, must-revalidate + Last-Modified),
 \* "expired" (Expires = Date + Last-Modified).  A follower that arrived during the fetch shares it in every case.
 Init == /\ par \in [f1 : Points, f2 : Points, f3 : Points \cup {"absent"}, outcome : {"ok", "abort", "unshareable"}, w1 : 1..2, w2 : 1..2, w3 : 1..2, workers : 1..2,
-                    fresh : {"fresh", "nocache", "mustreval0", "expired"}]
+                    fresh : {"fresh", "nocache", "mustreval0", "expired"},
+                    primed : BOOLEAN]      \* the response is already stored (and must be revalidated): the burst meets a conditional fetch answered 304
+        /\ (par.primed => par.fresh = "nocache" /\ par.outcome = "ok" /\ par.workers = 1)
         /\ (par.workers = 1 => par.w1 = 1 /\ par.w2 = 1 /\ par.w3 = 1)
         /\ (par.outcome # "ok" => par.fresh = "fresh")
         /\ fetches = 0 - 1
